@@ -178,10 +178,28 @@ template <class T> static bool distinct_out(const T *p, int n)
   static const char *nm() { return Str; } enum { cls = Cls, nz = NZ }; };
 BINOP(OAdd, +, LIN, 0, "operator+") BINOP(OSub, -, LIN, 0, "operator-") BINOP(OMul, *, MUL2, 0, "operator*") BINOP(ODiv, /, ORD, 1, "operator/")
 BINOP(ORem, %, ORD, 1, "operator%")
-#define ASGOP(Name, op, Cls, NZ, Str) struct Name { template <class X, class Y> static X &ap(X &x, const Y &y) { return x op y; } \
+// compound assignment returns the LEFT OPERAND ITSELF.  Every use below compiles whether an overload returns T& or (wrongly) T:
+//   ap     : apply, discard the result;   ident : auto&& r = (x op y); is r the object x?
+//   chain  : auto&& r = (x op y); r op t;  -- x must show both updates when r is x
+#define ASGOP(Name, op, Cls, NZ, Str) struct Name { template <class X, class Y> static void ap(X &x, const Y &y) { x op y; } \
+  template <class X, class Y> static bool ident(X &x, const Y &y) { auto &&r = (x op y); return (const void *)&r == (const void *)&x; } \
+  template <class X, class Y, class Z> static void chain(X &x, const Y &y, const Z &t) { auto &&r = (x op y); r op t; } \
   static const char *nm() { return Str; } enum { cls = Cls, nz = NZ }; };
 ASGOP(AAdd, +=, LIN, 0, "operator+=") ASGOP(ASub, -=, LIN, 0, "operator-=") ASGOP(AMul, *=, MUL2, 0, "operator*=") ASGOP(ADiv, /=, ORD, 1, "operator/=")
 ASGOP(ARem, %=, ORD, 1, "operator%=")
+
+
+// failure reports of t_bin / t_asg: templated on the scalar types only (not on the operator and the shapes), out of line, so that the
+// string building is compiled once per element-type pair
+template <class T, class U, class R>
+__attribute__((noinline)) static void fail2(const char *opn, const char *form, const std::string &lt, const std::string &rt, const char *an, const T *a, int na,
+                                            const char *bn, const U *b, int nb, const char *what, int i, R got, R want)
+{
+  fail(std::string(opn) + form + "/" + lt + "," + rt,
+       std::string(an) + "=" + (na == 1 ? show(a[0]) : showa(a, na)) + " " + bn + "=" + (nb == 1 ? show(b[0]) : showa(b, nb)) + what +
+           (i >= 0 ? " component " + std::to_string(i) + " got " + show(got) + " want " + show(want) : std::string()));
+}
+#define CHECK2(ok, ...) do { g_checks++; if (!(ok)) fail2(__VA_ARGS__); } while (0)
 
 template <class T> static int opcls(int c, bool nz) { return (std::is_floating_point<T>::value && nz) ? ORD : c; }
 
@@ -201,18 +219,15 @@ template <class Op, class VA, class VB, class VR> static void t_bin()
   for (int i = 0; i < n; i++) {
     R w = (R)Op::ap(a[i], b[i]);
     o[i] = w;
-    EXPECT(std::string(Op::nm()) + "(vec,vec)/" + vname<VA>() + "," + vname<VB>(), same(get(r, i), w),
-           "a=" + showa(a, n) + " b=" + showa(b, n) + " component " + std::to_string(i) + " got " + show(get(r, i)) + " want " + show(w));
+    CHECK2(same(get(r, i), w), Op::nm(), "(vec,vec)", vname<VA>(), vname<VB>(), "a", a, n, "b", b, n, "", i, get(r, i), w);
   }
   if (distinct_out(o, n)) g_nontrivial++;
   auto r2 = Op::ap(va, sb[0]);
   auto r3 = Op::ap(sa[0], vb);
   for (int i = 0; i < n; i++) {
     R w2 = (R)Op::ap(a[i], sb[0]), w3 = (R)Op::ap(sa[0], b[i]);
-    EXPECT(std::string(Op::nm()) + "(vec,scalar)/" + vname<VA>() + "," + TN<U>::n(), same((R)get(r2, i), w2),
-           "a=" + showa(a, n) + " s=" + show(sb[0]) + " component " + std::to_string(i) + " got " + show(get(r2, i)) + " want " + show(w2));
-    EXPECT(std::string(Op::nm()) + "(scalar,vec)/" + TN<T>::n() + "," + vname<VB>(), same((R)get(r3, i), w3),
-           "s=" + show(sa[0]) + " b=" + showa(b, n) + " component " + std::to_string(i) + " got " + show(get(r3, i)) + " want " + show(w3));
+    CHECK2(same((R)get(r2, i), w2), Op::nm(), "(vec,scalar)", vname<VA>(), std::string(TN<U>::n()), "a", a, n, "s", sb, 1, "", i, (R)get(r2, i), w2);
+    CHECK2(same((R)get(r3, i), w3), Op::nm(), "(scalar,vec)", std::string(TN<T>::n()), vname<VB>(), "s", sa, 1, "b", b, n, "", i, (R)get(r3, i), w3);
   }
   static_assert(std::is_same<typename Dim<decltype(r2)>::S, R>::value && std::is_same<typename Dim<decltype(r3)>::S, R>::value, "element type of the broadcast forms");
 }
@@ -229,17 +244,34 @@ template <class Op, class VA, class VB> static void t_asg()
   fill(a, n, toint ? POS : Op::cls); fill(b, n, toint ? POS : cls, nzf); fill(s, 1, toint ? POS : cls, nzf);
   (void)cls;
   VA va = mkv<VA>(a); VB vb = mkv<VB>(b);
-  VA &ret = Op::ap(va, vb);
-  EXPECT(std::string(Op::nm()) + "/returns-its-first-argument/" + vname<VA>(), &ret == &va, "the returned reference is not the first argument");
+  Op::ap(va, vb);
+  VA &ret = va;
   VA vs = mkv<VA>(a);
   Op::ap(vs, s[0]);
+  // identity of the result (address of the result == address of the left operand) and chained use through a held reference
+  {
+    COUNT(std::string("identity/") + Op::nm() + "/" + vname<VA>() + "," + vname<VB>());
+    VA i1 = mkv<VA>(a), i2 = mkv<VA>(a);
+    bool id_vv = Op::ident(i1, vb), id_vs = Op::ident(i2, s[0]);
+    CHECK2(id_vv, Op::nm(), "/identity(vec,vec)", vname<VA>(), vname<VB>(), "a", a, n, "b", b, n,
+           ": auto&& r = (a op= b); &r != &a - the result is a detached copy, not the left operand", -1, T(), T());
+    CHECK2(id_vs, Op::nm(), "/identity(vec,scalar)", vname<VA>(), std::string(TN<U>::n()), "a", a, n, "s", s, 1,
+           ": auto&& r = (a op= s); &r != &a - the result is a detached copy, not the left operand", -1, T(), T());
+    U two = (U)2;
+    VA c1 = mkv<VA>(a), c2 = mkv<VA>(a);
+    Op::chain(c1, vb, two); Op::chain(c2, s[0], two);
+    for (int i = 0; i < n; i++) {
+      T w = a[i]; Op::ap(w, b[i]); Op::ap(w, two);
+      T w2 = a[i]; Op::ap(w2, s[0]); Op::ap(w2, two);
+      CHECK2(same(get(c1, i), w), Op::nm(), "/chained(vec,vec)", vname<VA>(), vname<VB>(), "a", a, n, "b", b, n, ": auto&& r = (a op= b); r op= 2; a:", i, get(c1, i), w);
+      CHECK2(same(get(c2, i), w2), Op::nm(), "/chained(vec,scalar)", vname<VA>(), std::string(TN<U>::n()), "a", a, n, "s", s, 1, ": auto&& r = (a op= s); r op= 2; a:", i, get(c2, i), w2);
+    }
+  }
   for (int i = 0; i < n; i++) {
     T w = a[i]; Op::ap(w, b[i]);
     T w2 = a[i]; Op::ap(w2, s[0]);
-    EXPECT(std::string(Op::nm()) + "(vec,vec)/" + vname<VA>() + "," + vname<VB>(), same(get(ret, i), w),
-           "a=" + showa(a, n) + " b=" + showa(b, n) + " component " + std::to_string(i) + " got " + show(get(ret, i)) + " want " + show(w));
-    EXPECT(std::string(Op::nm()) + "(vec,scalar)/" + vname<VA>() + "," + TN<U>::n(), same(get(vs, i), w2),
-           "a=" + showa(a, n) + " s=" + show(s[0]) + " component " + std::to_string(i) + " got " + show(get(vs, i)) + " want " + show(w2));
+    CHECK2(same(get(ret, i), w), Op::nm(), "(vec,vec)", vname<VA>(), vname<VB>(), "a", a, n, "b", b, n, "", i, get(ret, i), w);
+    CHECK2(same(get(vs, i), w2), Op::nm(), "(vec,scalar)", vname<VA>(), std::string(TN<U>::n()), "a", a, n, "s", s, 1, "", i, get(vs, i), w2);
   }
 }
 
@@ -644,6 +676,11 @@ template <class V> static void t_access()
   for (int i = 0; i < n; i++) { if (i) o2 << ","; o2 << a[i]; }
   o2 << ")";
   EXPECT("operator<</" + vname<V>(), o1.str() == o2.str(), "got " + o1.str() + " want " + o2.str());
+  {
+    std::ostringstream o3;
+    auto &&r = (o3 << v);
+    EXPECT("operator<</returns-its-stream/" + vname<V>(), (const void *)&r == (const void *)static_cast<std::ostream *>(&o3), "the returned stream is not the left operand");
+  }
   g_nontrivial++;
 }
 template <class T> static void t_ctors()
